@@ -51,6 +51,7 @@ type modeState[V any] struct {
 	hintIndex    *int
 	hintFreshKey bool
 	hintCat      bool
+	panicRet     string // what a panic of the next recorded call means in the model (RPartial for a bulk call that panics part way)
 	nextKeys     []V
 	nextVals     []V
 	tied         bool             // the value / key generators draw rank-equal distinct values (values:tied)
@@ -177,6 +178,9 @@ func (s *seqRunner[V]) observeThis(o *pobj) bool {
 func (s *seqRunner[V]) pickView(o *pobj) int {
 	if s.obsPolicy == obsFull {
 		return 0
+	}
+	if o.nan {
+		return s.r.intn(2) // never the key walk: a NaN key cannot be looked up
 	}
 	return s.r.intn(3)
 }
@@ -610,6 +614,9 @@ func (s *seqRunner[V]) freshQuery() bool {
 	r := s.r
 	var cands []int
 	for i, o := range s.pool {
+		if o.nan {
+			continue
+		}
 		switch o.kind {
 		case kArr, kLst, kSet, kStk, kQue, kCat, kMap:
 			cands = append(cands, i)
@@ -779,6 +786,9 @@ func (s *seqRunner[V]) macroAliasProbe() bool {
 	}
 	var cands []int
 	for i, o := range s.pool {
+		if o.nan {
+			continue
+		}
 		if len(options(o.kind)) > 0 {
 			cands = append(cands, i)
 			switch o.kind {
@@ -1265,14 +1275,14 @@ func (s *seqRunner[V]) macroSortSlice() bool {
 var macroTable = map[string][]weighted{
 	"C01": {{"tiedvalues", 2}, {"requery", 8}, {"aliasprobe", 3}, {"ascbuild", 1}, {"nilcall", 1}, {"bulkvals", 2}},
 	"C02": {{"tiedvalues", 4}, {"requery", 3}, {"aliasprobe", 3}, {"ascbuild", 2}, {"nilcall", 1}, {"limcall", 2}, {"bulkvals", 4}},
-	"C03": {{"tiedvalues", 4}, {"requery", 2}, {"bulkkeys", 6}, {"aliasprobe", 2}, {"assocwrite", 2}},
+	"C03": {{"badkey", 4}, {"nankeys", 3}, {"tiedvalues", 4}, {"requery", 2}, {"bulkkeys", 6}, {"aliasprobe", 2}, {"assocwrite", 2}},
 	"C09": {{"tiedvalues", 7}, {"sortslice", 7}, {"requery", 1}},
 	"C13": {{"requery", 4}, {"aliasprobe", 2}},
-	"C14": {{"tiedvalues", 3}, {"requery", 2}, {"bulkkeys", 7}, {"aliasprobe", 2}, {"assocwrite", 2}},
+	"C14": {{"badkey", 4}, {"nankeys", 2}, {"tiedvalues", 3}, {"requery", 2}, {"bulkkeys", 7}, {"aliasprobe", 2}, {"assocwrite", 2}},
 	"C15": {{"tiedvalues", 2}, {"nilcall", 2}, {"limcall", 8}, {"aliasprobe", 8}, {"ascbuild", 3}, {"requery", 1}},
-	"C16": {{"tiedvalues", 2}, {"nilcall", 4}, {"aliasprobe", 3}, {"bulkkeys", 4}, {"assocwrite", 1}, {"requery", 1}},
+	"C16": {{"badkey", 2}, {"nankeys", 1}, {"tiedvalues", 2}, {"nilcall", 4}, {"aliasprobe", 3}, {"bulkkeys", 4}, {"assocwrite", 1}, {"requery", 1}},
 	"C17": {{"requery", 3}, {"assocwrite", 2}, {"aliasprobe", 1}},
-	"C18": {{"tiedvalues", 1}, {"aliasprobe", 9}, {"assocwrite", 5}, {"ascbuild", 2}, {"nilcall", 1}, {"bulkkeys", 1}, {"requery", 1}, {"bulkvals", 2}},
+	"C18": {{"badkey", 1}, {"nankeys", 1}, {"tiedvalues", 1}, {"aliasprobe", 9}, {"assocwrite", 5}, {"ascbuild", 2}, {"nilcall", 1}, {"bulkkeys", 1}, {"requery", 1}, {"bulkvals", 2}},
 }
 
 func (s *seqRunner[V]) configure(prop string) {
@@ -1378,6 +1388,70 @@ func (a *assocRunner[V]) doAssocModeOp(name string) (ok bool, handled bool) {
 			return "RUnit"
 		})
 		return true, true
+	case "ABadKey":
+		// a single call or a bulk lookup with an UNHASHABLE key (a Go slice under any): the Go runtime panics at the
+		// map lookup, nothing has changed
+		bad, okBad := any([]int{1 + r.intn(3)}).(V)
+		i := s.pickObj(kCat, kMap)
+		if !okBad || i < 0 {
+			return false, true
+		}
+		which := r.intn(4)
+		if which == 3 && s.full() {
+			which = 0
+		}
+		present := a.keysOf(i)
+		v := s.gv()
+		s.record(a, name, fmt.Sprintf("ABadKey %d", i), fmt.Sprintf("#%d.%s(unhashable key)", i, []string{"GetValue", "SetValue", "RemoveValue", "GetValues"}[which]), func() string {
+			var as col.Associative[V, V]
+			if s.pool[i].kind == kCat {
+				as = s.pool[i].v.(col.CatalogLike[V, V])
+			} else {
+				as = s.pool[i].v.(col.MapLike[V, V])
+			}
+			switch which {
+			case 0:
+				as.GetValue(bad)
+			case 1:
+				as.SetValue(bad, v)
+			case 2:
+				as.RemoveValue(bad)
+			default:
+				ks := append(append([]V{}, present...), bad)
+				as.GetValues(col.List[V](s.notation).MakeFromArray(ks))
+			}
+			return "RBad" // it must not return
+		})
+		return true, true
+	case "ARemoveValuesBad":
+		// RemoveValues(present and absent keys ++ [unhashable key] ++ more keys): the keys before the unhashable one
+		// are removed, one by one, from the key index AND the order; then the lookup panics
+		bad, okBad := any([]int{1 + r.intn(3)}).(V)
+		i := s.pickObj(kCat, kMap)
+		if !okBad || i < 0 {
+			return false, true
+		}
+		present := a.keysOf(i)
+		absent := func() V { return a.genk(r) }
+		before := shapedSeq(r, present, absent, 1+r.intn(len(present)+1))
+		if r.chance(1, 6) {
+			before = nil // the unhashable key first: nothing is removed
+		}
+		after := shapedSeq(r, present, absent, 1+r.intn(2))
+		all := append(append(append([]V{}, before...), bad), after...)
+		s.panicRet = "RPartial"
+		s.record(a, name, fmt.Sprintf("ARemoveValuesBad %d %s", i, keysEnc(before)), fmt.Sprintf("#%d.RemoveValues(%v ++ [unhashable] ++ %v)", i, before, after), func() string {
+			var as col.Associative[V, V]
+			if s.pool[i].kind == kCat {
+				as = s.pool[i].v.(col.CatalogLike[V, V])
+			} else {
+				as = s.pool[i].v.(col.MapLike[V, V])
+			}
+			as.RemoveValues(col.List[V](s.notation).MakeFromArray(all))
+			return "RBad" // it must not return
+		})
+		s.panicRet = ""
+		return true, true
 	case "NilCat":
 		x := s.pickObj(kCat)
 		if x < 0 || s.full() {
@@ -1422,6 +1496,10 @@ func (a *assocRunner[V]) macro(name string) bool {
 		return a.macroAssocWrite()
 	case "tiedkeys":
 		return a.macroTiedKeys()
+	case "badkey":
+		return a.macroBadKey()
+	case "nankeys":
+		return a.macroNaNKeys()
 	}
 	return false
 }
@@ -1766,6 +1844,145 @@ func (a *assocRunner[V]) macroTiedKeys() bool {
 		}
 		s.do(f, c)
 		s.forceKey = nil
+	}
+	return true
+}
+
+// ---------- round 5: a bulk METHOD that panics part way; keys that are not equal to themselves ----------
+
+// a bulk removal that panics at an unhashable key after it removed the keys before it, then every view of the
+// collection (the observation) and calls that need key index and order to agree: SetValue / GetValue of a removed key
+func (a *assocRunner[V]) macroBadKey() bool {
+	s := a.seqRunner
+	r := s.r
+	if _, ok := any([]int{1}).(V); !ok {
+		return false
+	}
+	var cands []int
+	for _, i := range s.ofKind(kCat, kMap) {
+		cands = append(cands, i)
+		if pk, ok := map[string]okind{"C14": kMap, "C03": kCat, "C16": kCat}[s.prop]; ok && s.pool[i].kind == pk {
+			cands = append(cands, i, i)
+		}
+	}
+	if len(cands) == 0 {
+		return false
+	}
+	i := cands[r.intn(len(cands))]
+	for k := 0; k < 3 && a.assocSeq(i).GetSize() < 3 && !s.hung && r.chance(4, 5); k++ {
+		s.hintFreshKey = true
+		s.do("ASet", i)
+		s.hintFreshKey = false
+	}
+	if s.hung {
+		return true
+	}
+	before := a.keysOf(i)
+	if r.chance(1, 4) {
+		s.do("ABadKey", i)
+		return true
+	}
+	s.do("ARemoveValuesBad", i)
+	// afterwards: the removed keys again (SetValue must not add a second association, GetValue reads zero)
+	for k := 1 + r.intn(3); k > 0 && !s.hung && len(before) > 0; k-- {
+		key := before[r.intn(len(before))]
+		s.forceKey = &key
+		s.do([]string{"ASet", "AGet", "ARemove", "ASet"}[r.intn(4)], i)
+		s.forceKey = nil
+	}
+	if !s.hung && !s.full() && r.chance(1, 2) {
+		s.do("AKeys", i)
+	}
+	return true
+}
+
+// MakeFromMap (Catalog and Map) of a Go map that holds one or two NaN keys with non-zero values: the size and the
+// multiset of pairs seen through AsArray / iteration must be the Go map's (a NaN key cannot be looked up)
+func (a *assocRunner[V]) macroNaNKeys() bool {
+	s := a.seqRunner
+	r := s.r
+	nan, ok := any(math.NaN()).(V)
+	if !ok || len(s.pool)+2 > s.maxPool {
+		return false
+	}
+	m := map[V]V{}
+	var items []string
+	put := func(k, v V) {
+		m[k] = v
+		items = append(items, "("+encVal(any(k))+", "+encVal(any(v))+")")
+	}
+	nonzero := func() V {
+		for try := 0; try < 10; try++ {
+			v := s.genv(r)
+			if encVal(any(v)) != encVal(any(s.zero)) {
+				return v
+			}
+		}
+		return s.genv(r)
+	}
+	for k := r.intn(3); k > 0; k-- {
+		put(a.genk(r), s.genv(r))
+	}
+	for k := 1 + r.intn(2); k > 0; k-- {
+		put(nan, nonzero())
+	}
+	if r.chance(1, 2) {
+		put(a.genk(r), s.genv(r))
+	}
+	s.record(a, "NewGoMap", "NewGoMap "+encList(items), fmt.Sprintf("gomap with NaN keys %v", m), func() string {
+		s.add(kGoMap, m, 0)
+		s.pool[len(s.pool)-1].nan = true
+		return "RNew"
+	})
+	src := len(s.pool) - 1
+	for k := 1 + r.intn(2); k > 0 && !s.hung && !s.full(); k-- {
+		toCat := r.chance(2, 3)
+		if s.prop == "C14" {
+			toCat = r.chance(1, 3)
+		}
+		var made any
+		var pairs []col.AssociationLike[V, V]
+		oc, _ := guard(func() {
+			if toCat {
+				c := col.Catalog[V, V](s.notation).MakeFromMap(m)
+				made, pairs = c, c.AsArray()
+			} else {
+				c := col.Map[V, V](s.notation).MakeFromMap(m)
+				made, pairs = c, c.AsArray()
+			}
+		})
+		kname := "CMap"
+		if toCat {
+			kname = "CCatalog"
+		}
+		s.record(a, "FromMapV", fmt.Sprintf("FromMapV %s %d %s", kname, src, encAssocs(pairs)), fmt.Sprintf("%s.MakeFromMap(#%d)  (NaN keys)", kname, src), func() string {
+			if oc != ocRet {
+				panic("constructor panicked")
+			}
+			if toCat {
+				s.add(kCat, made, 0)
+			} else {
+				s.add(kMap, made, 0)
+			}
+			s.pool[len(s.pool)-1].nan = true
+			return "RNew"
+		})
+		if s.hung {
+			return true
+		}
+		c := len(s.pool) - 1
+		switch r.intn(4) {
+		case 0:
+			s.do("AGetSize", c)
+		case 1:
+			s.forceKey = &nan
+			s.do("AGet", c) // the zero value: no lookup finds a NaN key
+			s.forceKey = nil
+		case 2:
+			if toCat {
+				s.do("AReverse", c)
+			}
+		}
 	}
 	return true
 }
